@@ -63,6 +63,9 @@ def gen_args(name, rng, i):
     if name == "restrict_func":
         lo = _u(rng, -5, 5)
         return dict(x=_u(rng, -12, 12), hi=lo + _u(rng, 0.1, 10), low=lo)
+    if name == "hybrid_broaden":
+        return dict(xc=_u(rng, 4, 12), yc=_u(rng, 4, 12), flux=_u(rng, 1, 500), r_eff=_u(rng, 0.6, 4), n=_u(rng, 0.8, 6), ellip=_u(rng, 0, 0.9),
+                    theta=_u(rng, -3, 3), _k=int(rng.integers(0, 15)), _psf_sigma=_u(rng, 0.8, 2.0))
     if name == "cash_loss_factor":
         return dict(mod=_u(rng, 0.05, 60), data=_u(rng, 0, 80))
     if name == "pseudo_huber_loss_factor":
@@ -125,6 +128,31 @@ def real_child(payload):
                         setattr(props, k, v)
                 prior = props.generate_prior(a["profile_type"])
                 out.append([[k, describe(d)] for k, d in prior.dist_dict.items()])
+            elif name == "hybrid_broaden":
+                # the two locals are observed where the method hands them on: the arguments of render_gaussian_pixel, with every
+                # component drawn in real space (num_pixel_render = n_sigma)
+                import warnings
+                import pysersic.rendering as RD
+                g = np.arange(7) - 3.0
+                psf = np.exp(-(g[:, None] ** 2 + g[None, :] ** 2) / (2 * a["_psf_sigma"] ** 2))
+                with warnings.catch_warnings():
+                    warnings.simplefilter("ignore")
+                    R = RD.HybridRenderer((16, 16), jnp.asarray(psf / psf.sum()), num_pixel_render=15)
+                seen = {}
+                orig = RD.render_gaussian_pixel
+
+                def spy(X, Y, amps, sigmas, xc, yc, theta, q):
+                    seen.update(amps=np.asarray(amps, float), so=np.asarray(sigmas, float), qo=np.asarray(q, float) * np.ones_like(np.asarray(sigmas, float)))
+                    return orig(X, Y, amps, sigmas, xc, yc, theta, q)
+                RD.render_gaussian_pixel = spy
+                try:
+                    R.render_sersic_hybrid(*(jnp.asarray(a[k]) for k in ("xc", "yc", "flux", "r_eff", "n", "ellip", "theta")))
+                finally:
+                    RD.render_gaussian_pixel = orig
+                _, sig = R.get_amps_sigmas(jnp.asarray(a["flux"]), jnp.asarray(a["r_eff"]), jnp.asarray(a["n"]))
+                sig = np.asarray(sig, float)[np.asarray(R.w_real)]
+                k = a["_k"] % len(sig)
+                out.append([float(seen["so"][k]), float(seen["qo"][k]), float(sig[k]), float(seen["amps"][k]), float(R.sig_psf_approx)])
             elif name == "restrict_func":
                 import pysersic.multiband as MB
                 out.append([float(MB.FitMultiBandPoly.restrict_func(None, jnp.asarray(a["x"]), a["hi"], a["low"]))])
@@ -185,6 +213,10 @@ def tie(ctx, names, per_kernel=None):
         if isinstance(r, str):
             uneval.append(dict(kernel=name, error=r[:200]))
             continue
+        if name == "hybrid_broaden":
+            # the inputs of the per-component formula that only the real renderer knows (its σ grid, its PSF width estimate)
+            a = dict(a, sigmas=r[2], amps=r[3], sig_psf_approx=r[4])
+            r = r[:2]
         try:
             vec = lean_args(name, a, kernels[name]["params"])
         except KeyError as e:
@@ -258,6 +290,7 @@ MODULE = {
     "tilted_plane_sky_sample": "Proofs.GenK.TiltedSample",
     "generate_prior": "Proofs.GenK.GeneratePrior",
     "restrict_func": "Proofs.GenK.Restrict",
+    "hybrid_broaden": "Proofs.GenK.HybridBroaden",
     "cash_loss_factor": "Proofs.GenK.Cash",
     "pseudo_huber_loss_factor": "Proofs.GenK.Huber",
     "losses": "Proofs.GenK.Losses",
@@ -272,6 +305,7 @@ THEOREMS = {
     "tilted_plane_sky_sample": [_NS + "gen_tilted_sample_eq"],
     "generate_prior": [_NS + "gen_generate_prior_eq"],
     "restrict_func": [_NS + "gen_restrict_eq"],
+    "hybrid_broaden": [_NS + "gen_hybrid_broaden_eq"],
     "cash_loss_factor": [_NS + "gen_cash_eq"],
     "pseudo_huber_loss_factor": [_NS + "gen_huber_eq"],
     # all ten loss programs (loss.py): per-pixel term, latent sites, site structure; tied to the real traces through the
